@@ -209,7 +209,7 @@ class C11(Check):
     # -- operations ---------------------------------------------------------------------------------
     def gen_op(self, src, spec, insts):
         kinds = [("read", 5), ("set", 4), ("del", 1.5), ("with", 3), ("transform", 2), ("update_attr", 1), ("reset_attr", 1.5),
-                 ("elem", 3), ("update", 2), ("ttransform", 1.5), ("reset", 0.7), ("override", 1), ("new", 1.2), ("set_u", 1.5)]
+                 ("elem", 3), ("update", 2), ("ttransform", 1.5), ("reset", 0.7), ("override", 2), ("del_prop", 1.5), ("new", 1.2), ("set_u", 1.5)]
         k = src.weighted(kinds)
         i = src.randint(0, len(insts) - 1) if insts else 0
         op = {"k": k, "i": i}
@@ -222,11 +222,13 @@ class C11(Check):
         if k == "read":
             op["name"] = src.choice(pnames)
         elif k == "override":
-            cands = [p["name"] for p in spec["props"] if not p["invalidated_by"] or not p.get("overridable", True)] or None
-            if not cands:
-                op["k"], op["name"] = "read", src.choice(pnames)
-            else:
-                op["name"], op["v"] = src.choice(cands), src.choice([100, 200])
+            # any property may be assigned: one that is overridable (or has a setter) keeps the value until something it
+            # depends on changes, and what depends on IT is discarded at once; one that is neither refuses
+            op["name"], op["v"] = src.choice(pnames), src.choice([100, 200, 300])
+        elif k == "del_prop":
+            # withdrawing an override (or dropping a cached value): the property is back to being computed, and what
+            # depends on it must follow
+            op["name"] = src.choice(pnames)
         else:
             op["inplace"] = src.chance(0.5)
             bad = src.chance(0.15)
@@ -275,7 +277,11 @@ class C11(Check):
             if k == "read":
                 call, mutated = (lambda: getattr(X, op["name"])), []
             elif k == "override":
-                call, mutated = (lambda: setattr(X, op["name"], op["v"])), []
+                call, mutated = (lambda: setattr(X, op["name"], op["v"])), [op["name"]]
+                op["inplace"] = True
+            elif k == "del_prop":
+                call, mutated = (lambda: delattr(X, op["name"])), [op["name"]]
+                op["inplace"] = True
             elif k == "set":
                 call, mutated = (lambda: setattr(X, op["name"], val(op["v"]))), [op["name"]]
                 op["inplace"] = True
@@ -334,7 +340,8 @@ class C11(Check):
         faults.begin(None)
         classes = build_classes(spec, faults)
         insts = []
-        overrides = {}
+        overrides = {}  # keyed by id(instance): every instance of the run is kept alive so that no id is ever reused
+        self._keep = []
         n_ops = len(ops_in) if ctx.replay else src.randint(*self.N_OPS[ctx.tier])
         for idx in range(n_ops):
             if ctx.replay:
@@ -360,6 +367,7 @@ class C11(Check):
         if k == "new":
             if out.status == "ok" and is_spec_instance(out.value):
                 insts.append(out.value)
+                self._keep.append(out.value)
                 if len(insts) > 4:
                     insts.pop(0)
                 self.check_values(ctx, spec, faults, out.value, overrides, op, idx, "new")
@@ -369,6 +377,8 @@ class C11(Check):
         R = out.value if (ok and is_spec_instance(out.value)) else None
         if k == "override" and ok:
             overrides[(id(X), op["name"])] = op["v"]
+        if k == "del_prop" and ok:
+            overrides.pop((id(X), op["name"]), None)
         if k == "read":
             if ok:
                 want = self.expected(spec, X, op["name"], overrides)
@@ -379,8 +389,8 @@ class C11(Check):
                     ctx.violate({"invariant": "read_equals_recomputation", "entry": "read", "declared_in": declared_in},
                                 {"op": op, "got": strip_addr(repr(out.value))[:200], "want": strip_addr(repr(want))[:200]}, idx)
             return
-        if k == "override":
-            if not ok:
+        if k == "override" and not ok:
+            if True:
                 # a refused assignment (the property is neither overridable nor has a setter) is a failed mutation
                 for p in props_for(spec, X):
                     n = p["name"]
@@ -398,7 +408,7 @@ class C11(Check):
         ctx.cell(k, inplace, out.status + ":" + str(out.exc_type()), tuple(sorted(set(kinds))), len(closure))
         sig = {"entry": k if k != "elem" else "elem:" + op["verb"], "inplace": inplace, "outcome": out.status}
         # (3) the receiver's cache slots: untouched unless successfully mutated in place
-        affected = set(closure) if (ok and inplace) else set()
+        affected = set(closure) | set(mutated) if (ok and inplace) else set()
         for p in props_for(spec, X):
             n = p["name"]
             before = slots_before.get(n, NOSLOT)
@@ -414,13 +424,17 @@ class C11(Check):
         target = X if inplace else R
         if target is None:
             return
-        if inplace:
-            for n in closure:
-                overrides.pop((id(X), n), None)
-        else:
-            for (iid, n), v in list(overrides.items()):
-                if iid == id(X) and n not in closure:
-                    overrides[(id(target), n)] = v
+        # (whether a user OVERRIDE of an affected property survives the change is not what the property is about -- an
+        # override is not a cached value; the library drops it, since both live in the same slot: the model follows the
+        # slot for the overridden property itself and judges everything that depends on it)
+        for (iid, n), v in list(overrides.items()):
+            if iid != id(X) or (inplace and n not in closure):
+                continue
+            if n in closure and target.__dict__.get(n, NOSLOT) is not v:
+                if inplace:
+                    overrides.pop((iid, n), None)
+            else:
+                overrides[(id(target), n)] = v
         # (2) invalidated_by attributes are back at their default
         for a in spec["attrs"]:
             if a["name"] in closure and a["name"] not in mutated:
@@ -438,6 +452,7 @@ class C11(Check):
         if target is not X:
             self.check_values(ctx, spec, faults, X, overrides, op, idx, sig["entry"], dict(sig, side="receiver"))
             insts.append(target)
+            self._keep.append(target)
             if len(insts) > 4:
                 insts.pop(0)
 
